@@ -127,7 +127,10 @@ def gen_state(rng, exact, nd=None, nsubs=None, scale=None, nmax=6, ints=False):
     tf = F(1, 2 ** rng.choice([30, 36, 40])) if exact else DEFAULT_TF
     st = dict(exact=exact, p1=[S(x) for x in p1], p2=[S(x) for x in p2], n=n, tf=S(tf),
               dims=rng.choice(DIMS)[:nd], units=rng.choice(UNITS)[:nd], subs=[], sub_idx={},
-              ints=ints, ctype=rng.choice(["list", "list", "array"]))
+              ints=ints, ctype=rng.choice(["list", "list", "array"]),
+              # integer-typed mesh corners with subregions on ANY lattice face (half-integer corners
+              # are then floats while the mesh stays int64) in half of the integer-typed states
+              mixed=bool(ints and rng.random() < 0.5))
     k = rng.choice([0, 1, 1, 2, 2, 3]) if nsubs is None else nsubs
     for i in range(k):
         add_sub(rng, st)
@@ -137,7 +140,7 @@ def gen_state(rng, exact, nd=None, nsubs=None, scale=None, nmax=6, ints=False):
 def allowed_faces(st, a):
     """face indices a subregion corner may use (integer-typed stream: integral coordinates only)"""
     k = st["n"][a]
-    if not st.get("ints"):
+    if not st.get("ints") or st.get("mixed"):
         return list(range(k + 1))
     return [j for j in range(k + 1) if F(face(st, a, j)).denominator == 1]
 
@@ -512,6 +515,22 @@ def generate(rng, tier):
                           scalar=rng.random() < 0.7, ref=ref,
                           refspell=rng.choice(["scalar", "npscalar", "list", "array", "tuple"] if nd_ == 1
                                               else ["list", "tuple", "array", "array"])))
+    # files: subregions survive Field.to_file / Field.from_file in every format, each file keeps its own
+    exts = ["ovf", "omf", "ohf", "vtk", "h5", "hdf5"]
+    for k in range(nm * 2):
+        st = gen_state(rng, True, nd=3 if k % 6 < 4 or rng.random() < 0.5 else None, nsubs=rng.choice([1, 2, 3]),
+                       ints=(k % 3 == 0))
+        st["units"] = ["m"] * len(st["n"])          # OVF stores one unit for all directions
+        cases.append(dict(kind="files", st=st, ext=exts[k % 6], rep=rng.choice(["bin8", "txt"])))
+    for k in range(nm):
+        st = gen_state(rng, True, nd=3, nsubs=rng.choice([1, 2]), ints=(k % 3 == 0))
+        st["units"] = ["m"] * 3
+        st2 = dict(st)
+        st2["subs"], st2["sub_idx"] = [], {}
+        for _ in range(rng.choice([0, 1, 2, 3])):
+            add_sub(rng, st2)
+        pair = rng.sample(["ovf", "omf", "ohf", "vtk", "h5"], 2)
+        cases.append(dict(kind="file-siblings", st=st, st2=st2, exts=pair))
     # aliasing: a stored subregion must be the mesh's own object
     for k in range(nm * 3):
         st = gen_state(rng, True, nsubs=rng.choice([1, 2, 3]), ints=(k % 4 == 0))
@@ -763,6 +782,9 @@ def run_case(c):
                    key=key_of("aligned", exact, nd, c["cls"], res, "deftol" if tol == ALIGN_TOL else "tol",
                               math.floor(math.log10(float(min(c1))))), size=size)
         return rec
+
+    if kind in ("files", "file-siblings"):
+        return run_files(c, rec, size)
 
     if kind == "getter-dict":
         mesh = build(st)
@@ -1091,6 +1113,52 @@ def run_case(c):
                    key=key_of("persist-json", exact, nd, c["mode"], acc, len(held), len(before)), size=size)
         return rec
     raise ValueError(kind)
+
+
+def run_files(c, rec, size):
+    """subregions through Field.to_file / Field.from_file (side-car for OVF and VTK, inside the file for
+    HDF5): the reloaded ordered name -> box map must be exactly the one written; files of one stem with
+    different extensions each keep their own subregions, whatever the order of writing"""
+    oracle = []
+    jobs = [(c["st"], c["ext"])] if c["kind"] == "files" else [(c["st"], c["exts"][0]), (c["st2"], c["exts"][1])]
+    obs = []
+    with tempfile.TemporaryDirectory() as tmp:
+        written = []
+        for st, ext in jobs:
+            st0, mesh = attempt(lambda: build(st))
+            if st0 != "ok":
+                oracle.append("valid-subregions-rejected")
+                continue
+            fn = os.path.join(tmp, "state." + ext)
+            field = df.Field(mesh, nvdim=3, value=(1.0, 0.0, -2.0))
+            kw = {} if ext in ("h5", "hdf5") else dict(representation=("bin" if c.get("rep") == "bin8" else "txt")
+                                                        if ext == "vtk" else c.get("rep", "bin8"))
+            st1, err = attempt(lambda: field.to_file(fn, **kw))
+            if st1 != "ok":
+                oracle.append("file-write-failed")
+                obs.append(dict(ext=ext, status=err))
+                continue
+            written.append((fn, ext, snap_subs(mesh)))
+        for fn, ext, held in written:
+            st2_, back = attempt(lambda: df.Field.from_file(fn).mesh)
+            if st2_ != "ok":
+                oracle.append("file-reload-failed")
+                obs.append(dict(ext=ext, status=back))
+                continue
+            mo = snap_mesh(back)
+            obs.append(dict(ext=ext, status="ok", subs=mo["subs"]))
+            got = [(x[0], Fs(x[1]), Fs(x[2])) for x in mo["subs"]]
+            want = [(x[0], Fs(x[1]), Fs(x[2])) for x in held]
+            if got != want:
+                oracle.append("file-subregions-changed" if dict((g_[0], g_[1:]) for g_ in got) !=
+                              dict((w[0], w[1:]) for w in want) else "file-subregions-reordered")
+            oracle += invariant_violations(mo)
+    rec["oracle"] = sorted(set(oracle))
+    nd = len(c["st"]["n"])
+    rec.update(obs=dict(files=obs), key=key_of(c["kind"], c.get("ext") or "+".join(c["exts"]), nd, c["st"].get("ints"),
+                                               c["st"].get("mixed"), len(c["st"]["subs"]),
+                                               len(c.get("st2", {}).get("subs", []))), size=size)
+    return rec
 
 
 def shares(r1, r2):
